@@ -205,7 +205,7 @@ def run(tier, seed, replay=None):
         pending = nxt
     evals = 0
     nontriv = set()
-    corr_bad = None
+    corr_bad = C.Corr()
     samples = []
     for ci, (c, ent) in enumerate(zip(cases, idx)):
         evals += 1
@@ -222,15 +222,15 @@ def run(tier, seed, replay=None):
             mp = model_post[ci]
         if mp is not None:
             if mp[0] == 'Err':
-                if c['err'] != mp[1] and corr_bad is None:
-                    corr_bad = dict(case, what='L1: model raises %s, implementation %s' % (mp[1], c['err'] or 'succeeds'))
+                if c['err'] != mp[1] and corr_bad.open():
+                    corr_bad += dict(case, what='L1: model raises %s, implementation %s' % (mp[1], c['err'] or 'succeeds'))
             elif c['err'] is not None:
-                if corr_bad is None:
-                    corr_bad = dict(case, what='L1: implementation raises %s, model succeeds' % c['err'])
+                if corr_bad.open():
+                    corr_bad += dict(case, what='L1: implementation raises %s, model succeeds' % c['err'])
             else:
                 dfr = O.snaps_differ(post, mp[1])
-                if dfr and corr_bad is None:
-                    corr_bad = dict(case, what='L1: post-state differs from model: ' + dfr)
+                if dfr and corr_bad.open():
+                    corr_bad += dict(case, what='L1: post-state differs from model: ' + dfr)
         # --- L2: the property itself
         if c['err'] is not None:
             V.failure(dict(case, what='L2: admissible knot insertion raised %s' % c['err']))
@@ -288,7 +288,7 @@ def run(tier, seed, replay=None):
             dist['n_inserted'].get(sum(len(post['bases'][dd]['knots']) - len(pre['bases'][dd]['knots']) for dd in dirs), 0) + 1
         if ok_struct and len(samples) < 3 and b['periodic'] >= 0 and c['op'] == 'insertN':
             samples.append(case)
-    rc = V.finish(l0, corr_bad if not V.fail else None)
+    rc = V.finish(l0, corr_bad)
     C.write_evidence(PID, tier, seed, l0, {
         'evaluations': evals, 'distinct_nontrivial': len(nontriv),
         'rule': 'random objects (pardim 1-3, open/non-open/periodic directions, rational 40%); operations: insert_knot single/list '
